@@ -99,6 +99,31 @@ func isRepeatedForm(c plenccodec.Codec) bool {
 	}
 }
 
+// building is a registry that remembers a pointer, slice or map type whose
+// codec is being built. A struct that contains itself is fine: its codec is
+// found while it is being built. A pointer, slice or map type that contains
+// itself without a struct in between (type L []L) can't be built, and we'd
+// recurse for ever looking
+type building struct {
+	plenccodec.CodecRegistry
+	typ reflect.Type
+}
+
+// isBuilding reports whether the codec for typ is being built on the way to
+// this registry
+func isBuilding(registry plenccodec.CodecRegistry, typ reflect.Type) bool {
+	for {
+		b, ok := registry.(building)
+		if !ok {
+			return false
+		}
+		if b.typ == typ {
+			return true
+		}
+		registry = b.CodecRegistry
+	}
+}
+
 // CodecForType finds an existing codec for a type or constructs a codec. It
 // calls CodecForTypeRegistry using the internal registry on p
 func (p *Plenc) CodecForType(typ reflect.Type) (plenccodec.Codec, error) {
@@ -125,7 +150,10 @@ func (p *Plenc) CodecForTypeRegistry(registry plenccodec.CodecRegistry, typ refl
 			// Map codecs expect the map itself when encoding, not its address
 			return nil, fmt.Errorf("pointers to maps are not supported")
 		}
-		subc, err := p.CodecForTypeRegistry(registry, typ.Elem(), tag)
+		if isBuilding(registry, typ) {
+			return nil, fmt.Errorf("%s contains itself: not supported", typ)
+		}
+		subc, err := p.CodecForTypeRegistry(building{CodecRegistry: registry, typ: typ}, typ.Elem(), tag)
 		if err != nil {
 			return nil, err
 		}
@@ -148,7 +176,10 @@ func (p *Plenc) CodecForTypeRegistry(registry plenccodec.CodecRegistry, typ refl
 		subt := typ.Elem()
 		// We assume for now that any tag here will be selecting the array
 		// treatment, not the registry for the underlying type.
-		subc, err := p.CodecForTypeRegistry(registry, subt, "")
+		if isBuilding(registry, typ) {
+			return nil, fmt.Errorf("%s contains itself: not supported", typ)
+		}
+		subc, err := p.CodecForTypeRegistry(building{CodecRegistry: registry, typ: typ}, subt, "")
 		if err != nil {
 			return nil, err
 		}
@@ -189,7 +220,10 @@ func (p *Plenc) CodecForTypeRegistry(registry plenccodec.CodecRegistry, typ refl
 		}
 
 	case reflect.Map:
-		c, err = plenccodec.BuildMapCodec(p, registry, typ, tag)
+		if isBuilding(registry, typ) {
+			return nil, fmt.Errorf("%s contains itself: not supported", typ)
+		}
+		c, err = plenccodec.BuildMapCodec(p, building{CodecRegistry: registry, typ: typ}, typ, tag)
 		if err != nil {
 			return nil, err
 		}
